@@ -346,7 +346,10 @@ def discharge(vc: VC):
 class Exploration:
     """Runs `body(interp, path)` over all feasible paths."""
 
-    def __init__(self, body, config=None, max_paths=20000):
+    def __init__(self, body, config=None, max_paths=20000, initial_work=None, split_after_s=None):
+        self.initial_work = [list(x) for x in initial_work] if initial_work else [[]]
+        self.split_after_s = split_after_s      # after this many seconds stop and hand the pending prefixes back (self.pending)
+        self.pending = []
         self.body = body
         self.config = config or {}
         self.max_paths = max_paths
@@ -361,13 +364,16 @@ class Exploration:
         self._covered = set()
 
     def run(self):
-        work = [[]]
+        work = list(self.initial_work)
         t_start = time.time()
         max_s = float(self.config.get("max_seconds", os.environ.get("PYVC_MAX_SECONDS", 300)))
         while work:
             prefix = work.pop()
             if self.paths >= self.max_paths:
                 self.unsupported.append(f"path budget {self.max_paths} exceeded")
+                break
+            if self.split_after_s is not None and time.time() - t_start > self.split_after_s and self.paths > 0:
+                self.pending = [prefix] + work
                 break
             if time.time() - t_start > max_s:
                 self.unsupported.append(f"exploration time budget {max_s:.0f}s exceeded after {self.paths} paths ({len(work) + 1} pending)")
